@@ -286,6 +286,8 @@ fn composite(leaves: &str, ops: &str) -> String {
             .zip(fds.iter())
             .map(|(c, fd)| match c {
                 'g' => Leaf::Gen(Generic::new(fd.clone(), Interest::READ, Mode::Level)),
+                // a Generic registered with an empty interest: in the poller under its key, never answering
+                'e' => Leaf::Gen(Generic::new(fd.clone(), Interest::EMPTY, Mode::Level)),
                 't' => Leaf::Tim(calloop::timer::Timer::from_duration(std::time::Duration::from_millis(25))),
                 _ => Leaf::Raw { fd: fd.clone(), token: None },
             })
@@ -364,7 +366,7 @@ fn composite(leaves: &str, ops: &str) -> String {
             "rereg" => {
                 // an event on the first active fd-backed leaf, answered by PostAction::Reregister
                 let act = active.borrow().clone();
-                if let Some(i) = (0..kinds.len()).find(|i| kinds[*i] != 't' && act[*i]) {
+                if let Some(i) = (0..kinds.len()).find(|i| kinds[*i] != 't' && kinds[*i] != 'e' && act[*i]) {
                     want_rereg.set(true);
                     let _ = rustix::io::write(fds[i].as_fd(), &1u64.to_ne_bytes());
                     ok &= el.dispatch(Some(std::time::Duration::ZERO), &mut ()).is_ok();
